@@ -16,7 +16,9 @@ def showH : HSt → String
   | .active => "active"
   | .exiting => "exiting"
   | .returned sl => "ret:" ++ joinWith ";" (sl.map showRes)
-  | .raised e => s!"exc:{e}"
+  | .raised (.code e) => s!"exc:{e}"
+  | .raised .cancelled => "exc:X"
+  | .abandoned => "exc:X"
 
 /-- canonical line: task states in submission order, free permits, helper state, tasks unfinished at the moment the helper
 returned/raised, peak number of running bodies during the step -/
@@ -27,6 +29,7 @@ def parseOutcome (t : String) : Option Outcome :=
   match t.toList with
   | 'r' :: d => (String.ofList d).toNat?.map Outcome.ret
   | 'e' :: d => (String.ofList d).toNat?.map Outcome.raise
+  | 'c' :: _ => some Outcome.cancel
   | _ => none
 
 def parseFlavour : String → Option Flavour
@@ -36,7 +39,7 @@ def parseFlavour : String → Option Flavour
   | "on" => some .online
   | _ => none
 
-/-- lines: `start FLAVOUR ENTRY N o0 o1 …` (`ENTRY` = `hold` | `bg`; outcomes `r<v>` | `e<e>`), `finish i`, `body r0|e<e>` -/
+/-- lines: `start FLAVOUR ENTRY N o0 o1 …` (`ENTRY` = `hold` | `bg`; outcomes `r<v>` | `e<e>`), `finish i`, `body r0|e<e>`, `cancel` (outcomes also `c0` = the body ends in CancelledError) -/
 def handle (st : Option State) (line : String) : Option State × String :=
   match words line, st with
   | "start" :: fl :: en :: n :: os, _ =>
@@ -53,6 +56,10 @@ def handle (st : Option State) (line : String) : Option State × String :=
       | some s' => (some s', showState (nRunning s.st) s')
       | none => (st, "err")
     | none => (st, "bad-op")
+  | ["cancel"], some s =>
+    match step s .cancelCaller with
+    | some s' => (some s', showState (nRunning s.st) s')
+    | none => (st, "err")
   | ["body", o], some s =>
     match parseOutcome o with
     | some o =>
